@@ -107,6 +107,18 @@ CHECKS["C20"] = dict(
     text="RewardScaler (all modes), ExponentialBaseline and WarmupBaseline are driven through every sequence of batches / eval / epoch_callback operations up to depth 3-6 from a small alphabet incl. constant and single-value batches; mean, sample std, output, EMA recurrence and warm-up weights are compared with an exact reference after every operation.",
     ref="DESIGN.md section 4 C20",
 )
+CHECKS["C10"] = dict(
+    engine="E5 GridEnumerator + E3 ChoiceExplorer",
+    technique="complete Cartesian enumeration of logit tuples x masks x temperature x top-k x top-p x tanh clipping on the real process_logits / greedy / sampling, float64 reference oracle; every positive-probability multinomial answer forced through the RNG seam",
+    text="All logit n-tuples over a 9-letter alphabet (ties, huge magnitudes, single feasible action) for n<=3 (quick) / n<=5 (thorough), all masks with a feasible action and the full parameter grid are evaluated on the real functions and judged for normalisation, zero masked probability, kept maximiser, top-k count, top-p mass, shift invariance, row independence; greedy returns a maximiser and sampling can only return positive-probability feasible indices (every index forced in turn).",
+    ref="DESIGN.md section 4 C10",
+)
+CHECKS["C15"] = dict(
+    engine="E5 GridEnumerator + E3 ChoiceExplorer + E2 ProductExplorer",
+    technique="augmentation families x num_augment x batch size under every RNG answer within one deviation (isometry / identity / row identity oracle), every complete action sequence of small instances costed on every copy; evaluate_policy for every method x parameters x loader batch size with each instance re-judged solo",
+    text="Both augmentation families and StateAugmentation are enumerated over counts {2,4,8}, batch sizes 1-3 and all single-deviation answers of the angle draw; every complete TSP/CVRP action sequence is costed on every copy; evaluate_policy's reported reward must equal the oracle objective of the returned actions on the original instance, equal the instance's solo best-of-k under the same RNG answers and never be worse than single greedy when the identity copy is a candidate.",
+    ref="DESIGN.md section 4 C15",
+)
 
 NOT_YET = {}
 
